@@ -239,7 +239,10 @@ NAMES = [["a", "b", "c", "d", "e", "f"], ["Alice", "Bob", "Carol", "Dave", "Erin
          ["1", "2", "3", "4", "5", "6"], ["yes", "no", "x y", "ALL", "WRITE_IN", "q"],
          # names containing the separator of the assertion names `winner + " v " + loser`: the pairs (a, b v c) and
          # (a v b, c) are both named "a v b v c" (finding F30: the constructor must not drop one of them silently)
-         ["a", "a v b", "b v c", "c", "b", "a v a"]]
+         ["a", "a v b", "b v c", "c", "b", "a v a"],
+         # identifiers that are falsy, numeric-looking, differ only in case / surrounding blanks, or are substrings of
+         # one another (round 9: `x or default`, `in` on a string, strip / casefold "normalisations")
+         ["0", "", "a", "A", " a", "aa"], ["1", "01", "1.0", "10", "1 ", "True"]]
 
 
 def _name_clash(case):
